@@ -118,6 +118,18 @@ func (_this *Session) GetBuilderGeneratorForType(dstType reflect.Type) BuilderGe
 		return storedBuilderGenerator.(BuilderGenerator)
 	}
 
+	defer func() {
+		if builderGenerator == nil {
+			// Generation panicked (unsupported type): withdraw the placeholder and
+			// release anyone waiting on it, or every later use of dstType on this
+			// session would block forever.
+			_this.builderGenerators.Delete(dstType)
+			builderGenerator = func(ctx *Context) Builder {
+				panic(fmt.Errorf("no builder could be generated for type %v", dstType))
+			}
+			wg.Done()
+		}
+	}()
 	verifGate("generate", dstType)
 	builderGenerator = _this.defaultBuilderGeneratorForType(dstType)
 	verifGate("done", dstType)
